@@ -177,7 +177,16 @@ def run(ctx, replay=None):
             # non-trivial: some write guard granted after some read guard was handed out
             first_r = next((i for i, l in enumerate(ev) if l.startswith("e racq")), None)
             mech = first_r is not None and any(l.startswith("e wacq") for l in ev[first_r:])
-            h = hashlib.sha1("\n".join(l for l in tl if l.startswith(("s ", "e ", "handle "))).encode()).hexdigest()
+            # canonical form: events between two stimuli are sorted (their order across endpoints
+            # depends on tokio's randomised select! inside chmux)
+            canon, seg = [], []
+            for l in tl:
+                if l.startswith("e "):
+                    seg.append(l)
+                elif l.startswith(("s ", "handle ")):
+                    canon += sorted(seg) + [l]
+                    seg = []
+            h = hashlib.sha1("\n".join(canon + sorted(seg)).encode()).hexdigest()
             if mech and h not in hashes:
                 hashes.add(h)
                 nontrivial += 1
